@@ -68,6 +68,7 @@ pub mod verif {
     pub use crate::tts::verif as tts;
     pub use crate::prefs::verif as prefs;
     pub use crate::navigate::verif as navigate;
+    pub use crate::braille::verif as braille;
 }
 
 pub mod shim_filesystem; // really just for override_file_for_debugging_rules, but the config seems to throw it off
